@@ -99,3 +99,28 @@ Example crash_is_fatal :
   let s := run_events 2 init [Up 0; Crash 0 1; Up 0; Up 1; Try 1 0; Retry 1 0; Try 1 0] in
   listening s 0 = false /\ check_connections 2 s 1 = false /\ ret s = [(1, 0)].
 Proof. vm_compute. repeat split; reflexivity. Qed.
+
+(* the eager schedule on EVERY launch order of 1..5 nodes: nobody reports True before the last node is up, everybody does after it *)
+Fixpoint insert_all (x : nat) (l : list nat) : list (list nat) :=
+  match l with
+  | [] => [[x]]
+  | h :: t => (x :: h :: t) :: map (cons h) (insert_all x t)
+  end.
+Fixpoint perms (l : list nat) : list (list nat) :=
+  match l with
+  | [] => [[]]
+  | h :: t => flat_map (insert_all h) (perms t)
+  end.
+Fixpoint eager_run (n : nat) (s : state) (order : list nat) : list state :=
+  match order with
+  | [] => []
+  | i :: t => let s' := eager_up n s i in s' :: eager_run n s' t
+  end.
+Definition eager_order_ok (n : nat) (order : list nat) : bool :=
+  let sts := eager_run n init order in
+  forallb (fun s => negb (existsb (check_connections n s) (seq 0 n))) (removelast sts)
+  && all_connected n (last sts init).
+
+Example eager_all_orders :
+  forallb (fun n => forallb (eager_order_ok n) (perms (seq 0 n))) [1; 2; 3; 4; 5] = true.
+Proof. vm_compute. reflexivity. Qed.
